@@ -933,9 +933,12 @@ func (pc *PartitionContext) allocate(result *objects.AllocationResult) *objects.
 			zap.String("nodeID", targetNodeID),
 			zap.String("appID", appID))
 
-		// attempt to deallocate, unless the node removal found the new allocation on the node and released it like all
-		// other allocations on the node: the RM has been told that it is gone, it must not be scheduled again
-		if alloc.IsAllocated() && !app.IsAllocationAssignedToApp(alloc) {
+		// The node removal releases the allocations it finds on the node. An allocation that was added while the node
+		// was still schedulable is found: it has been, or is about to be, released like all other allocations on the
+		// node and the RM is told that it is gone. It must not be made pending and scheduled again, the node removal
+		// would then release the second allocation of the ask. Only an ask that requires the node can have been added
+		// after the node was marked unschedulable, and thus after the node removal collected the allocations.
+		if alloc.IsAllocated() && (alloc.GetRequiredNode() == "" || !app.IsAllocationAssignedToApp(alloc)) {
 			pc.unwindRemovedAppAllocation(result)
 			return nil
 		}
